@@ -92,6 +92,9 @@ structure Dump where
   ls : List (Nat × Int) := []
   ss : List (Nat × Nat) := []
   cs : List (Addr × Denom × Int) := []
+  /-- the `I` line: the `broken` flags the module's own invariant functions returned
+      (selling, paying, vesting, AllInvariants); `none` for one that panicked (`x`) -/
+  inv : Option (List (Option Bool)) := none
   /-- an `x:` address or denom occurred in a C line -/
   unknownSeen : Bool := false
   /-- number of dump lines that could not be parsed -/
@@ -206,6 +209,13 @@ def Dump.addLine (d : Dump) (line : String) : Dump :=
     else match addrOfTok a, dn.toNat?, v.toInt? with
       | some a, some dn, some v => tag (addrAuction a) { d with cs := (a, dn, v) :: d.cs }
       | _, _, _ => badLine d
+  | "I" :: fs =>
+    let flag (t : String) : Option (Option Bool) :=
+      if t == "0" then some (some false) else if t == "1" then some (some true)
+      else if t == "x" then some none else none
+    match fs.mapM flag with
+    | some l => if l.length = 4 then tag none { d with inv := some l } else badLine d
+    | none => badLine d
   | _ => badLine d
 
 /-- the accumulators are built in reverse; put everything in stream order -/
@@ -307,7 +317,7 @@ def Block.xfers (b : Block) : List Transfer :=
 
 def isDumpLine (l : String) : Bool :=
   match words l with
-  | t :: _ => ["P", "N", "A", "W", "B", "Q", "L", "S", "C"].contains t
+  | t :: _ => ["P", "N", "A", "W", "B", "Q", "L", "S", "C", "I"].contains t
   | [] => false
 
 /-- parse the lines of one block (from the `>` line up to, excluding, the `.` line) -/
